@@ -1155,3 +1155,37 @@ BREAKING += [
     ('w13x-violation-next-to-no-verdict', ['C13'], [(A, _LEX_STRIP, "    contents = contents.strip().lower()\n"),
                                                     (A, "    for i, raw_line in enumerate(source.splitlines(), start=1):", "    for i, raw_line in enumerate([l for l in source.splitlines() if l.strip()], start=1):")]),
 ]
+
+
+# ---- C13 round 7: comments start at `#` only; comment lines are never directives; carriage returns left on lines ----
+_RD_INCLUDE_TEST = "        if raw_line.lower().startswith('include '):"
+_RD_INCLUDE_SUB = "                raw_include = re.sub(r'#.*$', r'', raw_line)"
+
+BREAKING += [
+    # `//` cuts expressions: VALUE = 100 // 7 defines 100
+    ('c13-comment-also-slashes', ['C13'], [(A, _LEX_COMMENT, "    contents = re.sub(r'(#|//).*$', r'', line.contents)")]),
+    ('c13-comment-also-semicolon', ['C13'], [(A, _LEX_COMMENT, "    contents = re.sub(r'[#;].*', '', line.contents)")]),
+    # a commented-out include is executed
+    ('c13-reader-hash-include', ['C13'], [(A, _RD_INCLUDE_TEST, "        if raw_line.lower().startswith(('include ', '#include ')):"),
+                                          (A, _RD_INCLUDE_SUB, "                raw_include = re.sub(r'#.*$', r'', raw_line.lstrip('#'))")]),
+    ('c13-reader-hash-stripped-first', ['C13'], [(A, _RD_INCLUDE_TEST, "        if raw_line.lstrip('# ').lower().startswith('include '):"),
+                                                 (A, _RD_INCLUDE_SUB, "                raw_include = re.sub(r'#.*$', r'', raw_line.lstrip('# '))")]),
+    # \r\n files: every line keeps its \r, and `string` takes the rest of the line verbatim
+    ('c13-split-newline', ['C13'], [(A, _RD_LOOP, "    for i, raw_line in enumerate(source.split('\\n'), start=1):\n")]),
+]
+
+PRESERVING += [
+    ('p13-reader-skip-comment-lines', ['C13'], [(A, _RD_SKIP, _RD_SKIP + "        # whole-line comments carry nothing\n        if raw_line.lstrip().startswith('#'):\n            continue\n")]),
+    # (C13 only: the lines agree for \n and \r\n files; other line separators of splitlines() are no documented freedom)
+    ('p13-split-newline-rstrip', ['C13'], [(A, _RD_LOOP, "    for i, raw_line in enumerate(source.split('\\n'), start=1):\n        raw_line = raw_line.rstrip('\\r')\n")]),
+    ('p13-split-newline-literals-exclude-cr', ['C13'], [(A, _RD_LOOP, "    for i, raw_line in enumerate(source.split('\\n'), start=1):\n"),
+                                                        (A, _RE_ERR_DEF, "    RE_ERROR = re.compile(r'\\s*error ([^\\r\\n]*)')"),
+                                                        (A, _RE_STR_DEF, "    RE_STRING = re.compile(r'\\s*string ([^\\r\\n]*)')")]),
+]
+
+UNDECIDED += [
+    ('u13-comment-alternation-hash-only', ['C13'], [(A, _LEX_COMMENT, "    contents = re.sub(r'(#|\\s+#).*$', r'', line.contents)")]),
+    ('u13-split-newline-literal-word-tail', ['C13'], [(A, _RD_LOOP, "    for i, raw_line in enumerate(source.split('\\n'), start=1):\n"),
+                                                      (A, _RE_ERR_DEF, "    RE_ERROR = re.compile(r'\\s*error ([^\\r\\n]*)')"),
+                                                      (A, _RE_STR_DEF, "    RE_STRING = re.compile(r'\\s*string ([\\w ]*)')")]),
+]
